@@ -54,11 +54,16 @@ structure Sched (N I : Type) where
   sortI : List I → List I     -- `sorted(self._input_dependencies.unmet_dependencies(), key=sort_keys)`
   sortR : List N → List N     -- `list(self._input_dependencies.met_dependents())`
 
-/-- What happened, in order (for the correspondence check; no theorem depends on it). -/
-inductive Event (N I S : Type) where
-  | attempt (n : N)
+/-- What happened, newest first (ghost: nothing the solver computes depends on it).  The driver
+reads the `.attempt` and `.prompt` events for the correspondence check; the bounded-work theorems
+(`Proofs/SolverTermination.lean`) count all of them. -/
+inductive Event (N I F S : Type) where
+  | attempt (n : N)                        -- one evaluation of the line `n` (`field.value(...)`)
   | prompt (x : I) (neededBy : List N) (answer : Option S)
-  | loadForm (f : String)
+  | loadForm (f : F) (inputOnly : Bool)    -- `_add_form(f, input_only)` got past the constructor
+  | push (n : N)                           -- `n` appended to `_unattempted_fields`
+  | waitV (n m : N)                        -- `_field_dependencies.add_unmet(m, n)`
+  | waitI (n : N) (x : I)                  -- `_input_dependencies.add_unmet(x, n)`
 deriving Repr
 
 structure St (N I F V S : Type) where
@@ -74,7 +79,7 @@ structure St (N I F V S : Type) where
   ideps : Tracker I N := {}         -- `_input_dependencies`
   refused : Bool := false           -- `_refused_input`
   nprompts : Nat := 0
-  log : List (Event N I S) := []    -- ghost
+  log : List (Event N I F S) := []  -- ghost
 
 section
 variable {N I F V S : Type} [DecidableEq N] [DecidableEq I] [DecidableEq F]
@@ -108,13 +113,15 @@ def addForm (C : Cat N I F V S) (σ : Sched N I) (s : St N I F V S) (f : F) (inp
   | .unsupported => .error (.unsupportedForm f)
   | .ctorError => .error (.ctorError f)
   | .ok =>
-    let s := { s with specs := s.specs ++ (C.inputs f).filter (fun x => !(s.specs.contains x)) }
+    let s := { s with specs := s.specs ++ (C.inputs f).filter (fun x => !(s.specs.contains x))
+                      log := .loadForm f inputOnly :: s.log }
     if inputOnly then .ok s else
     .ok { s with
       forms := if f ∈ s.forms then s.forms else s.forms ++ [f]
       fmap := s.fmap ++ (C.fields f).filter (fun n => !(s.fmap.contains n))
       queue := σ.sortQ (s.queue ++ C.required f)
-      solving := s.solving ++ (C.required f).filter (fun n => !(s.solving.contains n)) }
+      solving := s.solving ++ (C.required f).filter (fun n => !(s.solving.contains n))
+      log := (C.required f).reverse.map .push ++ s.log }
 
 /-- the `except UnmetDependency` branch up to (not including) `add_unmet`: make sure the line `m`
 that was read is being solved, loading its form if necessary -/
@@ -145,8 +152,13 @@ def attemptField (C : Cat N I F V S) (σ : Sched N I) :
     | .needV m =>
       match demand C σ s m with
       | .error e => .error e
-      | .ok s1 => .ok { s1 with fdeps := s1.fdeps.addUnmet m n, log := .attempt n :: s1.log }
-    | .needI x => .ok { s with ideps := s.ideps.addUnmet x n, log := .attempt n :: s.log }
+      | .ok s1 =>
+        -- ghost: `demand` enqueues `m` exactly when it was not yet being solved
+        .ok { s1 with fdeps := s1.fdeps.addUnmet m n,
+                      log := .waitV n m :: .attempt n ::
+                        (if m ∈ s.solving then s1.log else .push m :: s1.log) }
+    | .needI x =>
+      .ok { s with ideps := s.ideps.addUnmet x n, log := .waitI n x :: .attempt n :: s.log }
     | .needSpec x =>
       match C.formOfI x with
       | none => .error .badName
@@ -263,7 +275,8 @@ def addExtra (σ : Sched N I) : List N → St N I F V S → Res N I F (St N I F 
   | n :: ns, s =>
     if n ∈ s.fmap then
       addExtra σ ns { s with queue := σ.sortQ (s.queue ++ [n]),
-                             solving := if n ∈ s.solving then s.solving else s.solving ++ [n] }
+                             solving := if n ∈ s.solving then s.solving else s.solving ++ [n],
+                             log := .push n :: s.log }
     else .error (.keyError n)
 
 /-- `Solver(input_config, form_list, prompt)` -/
